@@ -564,7 +564,11 @@ def check_equ(ev):
     if zc and ev["info"] == 0 and all(c0[j] > 0 for j in zc):
         zc = []                                          # ... unless rounding kept them (borderline)
     if zc:
-        return {"bad": bad + ([] if ev["info"] == m + zc[0] + 1 else ["C11.info"])}
+        # a column whose scaled maximum lies in (0, tiny] may or may not survive the rounding of the products: the column
+        # reported is the first exactly zero one or any such borderline column before it
+        hard = [j for j in zc if c0[j] == 0]
+        ok = {m + j + 1 for j in zc if not hard or j <= hard[0]}
+        return {"bad": bad + ([] if ev["info"] in ok else ["C11.info"])}
     if ev["info"] != 0:
         return {"bad": bad + ["C11.info"]}
     if any(not close(C[j], 1 / clamp(c0[j]), 2 * u, eps, tiny) or C[j] <= 0 for j in range(n)):
